@@ -15,7 +15,7 @@ import time
 from vlib import common
 
 NPKG = 8
-MAX_ROUNDS = 12
+MAX_ROUNDS = 40
 
 
 def _hex_text(h):
@@ -124,16 +124,31 @@ class Stage2:
                 hit[best] = msg[:200]
         return hit
 
+    def syntax_filter(self):
+        """Texts that are not Go expressions at all (go/parser.ParseExpr) are marked before compiling."""
+        inp = "".join(t[1].encode("utf-8", errors="surrogateescape").hex() + "\n" for t in self.texts)
+        p = subprocess.run([common.tool_path("gengostring"), "-checksyntax"], input=inp.encode(), stdout=subprocess.PIPE,
+                           stderr=subprocess.PIPE, timeout=600)
+        out = p.stdout.decode("utf-8", errors="replace").split("\n")
+        if p.returncode != 0 or len(out) < len(self.texts):
+            raise common.CheckError("gengostring -checksyntax failed: " + p.stderr.decode(errors="replace")[-500:])
+        for k, l in enumerate(out[:len(self.texts)]):
+            if l != "ok":
+                self.bad[k] = "syntax: " + l[4:204]
+
     def build(self):
         """Compiles; stubs out rejected texts and retries. Returns (ok, log)."""
+        self.syntax_filter()
         self.write_all()
         log = ""
         for rnd in range(MAX_ROUNDS):
-            p = common.sh(["go", "build", "-gcflags=-e", "-o", "stage2.bin", "./stage2"], cwd=self.cdir, timeout=3000)
+            p = subprocess.run(["go", "build", "-gcflags=-e", "-o", "stage2.bin", "./stage2"], cwd=self.cdir, timeout=3000,
+                               env=common.GOENV, stdout=subprocess.PIPE, stderr=subprocess.PIPE)
             if p.returncode == 0:
                 return True, log
-            log = p.stderr[-6000:]
-            hit = self.attribute(p.stderr)
+            err = p.stderr.decode("utf-8", errors="replace")   # rejected texts may hold arbitrary bytes
+            log = err[-6000:]
+            hit = self.attribute(err)
             hit = {k: v for k, v in hit.items() if k not in self.bad}
             if not hit:
                 return False, log
